@@ -5,6 +5,7 @@ import GenjaxModel.Model.ChainIO
 import GenjaxModel.Model.StateIO
 import GenjaxModel.Model.HmmIO
 import GenjaxModel.Model.SeedIO
+import GenjaxModel.Model.LoweringIO
 /-! Line-protocol driver: one S-expression per input line, one per output line. -/
 open Genjax
 
@@ -31,6 +32,9 @@ def dispatch (e : SExp) : SExp :=
   | some r => r
   | none =>
   match stepSeed e with
+  | some r => r
+  | none =>
+  match stepLowering e with
   | some r => r
   | none => .list [.atom "bad-op"]
 
